@@ -551,7 +551,7 @@ def case_c16_wrapped(rng, idx, params):
             if kw.get("indicator_two") == "D":
                 kw["indicator_two"] = "B"
     found, stats = check_wrapped(scn)
-    viol = _finish("C16", scn, found, idx, 0, check_wrapped)
+    viol = _finish(params.get("prop", "C16"), scn, found, idx, 0, check_wrapped)
     meta.update({"fn": fn, "mode": mode, "schedule": shape, "fired": stats["truthy"] > 0, "raised_like_direct": bool(stats.get("raised"))})
     return {"nontrivial": n >= 2 and bool(chunks) and not stats.get("raised"), "key": hash(str(scn)), "violation": viol, "meta": meta,
             "evals": max(1, stats["evals"]), "sample": {"fn": fn, "mode": mode, "kwargs": kw, "n": n, "init": init, "chunks": chunks[:6]} if idx < 2 else None}
@@ -932,6 +932,14 @@ def construct(rng, fn, violate):
     for _ in range(30):
         hist = [(None, float(o), float(h), float(l), float(c), v)
                 for o, h, l, c, v in dyadic_candles(rng, rng.randint(10, 24), flat_p=0.03, zero_body_p=0.08)]
+        if rng.random() < 0.35 and len(hist) >= 12:
+            # one outlier body at the EDGE of the 10-candle windows that end at the witness / at its predecessor: an average taken over
+            # a window shifted by one candle then differs by far more than the 2x margins
+            j = len(hist) - rng.choice([9, 10, 10, 11])
+            _, o_, h_, l_, c_, v_ = hist[j]
+            big = float(rng.choice([16, 32, 64]))
+            c2 = o_ + big if (rng.random() < 0.5 or o_ - big <= 1) else o_ - big
+            hist[j] = (None, o_, max(h_, o_, c2), min(l_, o_, c2), c2, v_)
         stream = list(hist)
         f = lambda a, b: Fr(rng.randint(int(a * 1000), int(b * 1000)), 1000)
         # half of the draws sit right at the 2x margin so that a threshold that moved by more than 2x is noticed
